@@ -82,6 +82,10 @@ def gen_designator(rng, kind, maxlen=255):
             # as the caller has them -- the designator carries the bytes it is given
             lim = maxlen if maxlen < 255 else 252
             body = rng.choice([b"eui.", b"naa.", b"iqn.", b"EUI.", b"iqn.1993-08.org.debian:01:", b"naa.6001405"]) + bytes(rng.choice(b"0123456789abcdef") for _ in range(rng.choice([1, 2, 3, 5, 12, 16, 17, 32])))
+            if rng.random() < 0.4:
+                # the names iSCSI ports report (SAM-5 / iSCSI): target ports "<name>,t,0x<portal group tag>", initiator ports
+                # "<name>,i,0x<ISID>", also with odd tags
+                body += rng.choice([b",t,0x0001", b",t,0x0101", b",t,0x1", b",i,0x00023d000001", b",t,0x", b",t,0xFFFF", b",T,0x0001", b",t,0x0001,t,0x0002"])
             body = body[: lim]
             if rng.random() < 0.5 and len(body) < lim:
                 body += b"\0"
